@@ -380,3 +380,190 @@ class Chain:
                 ctx.nontriv((pattern, case["start"], step))
             st, text, generated = nst, new, True
         ctx.state((pattern, tuple(sorted(lens))))
+
+
+class FutureBump:
+    """C14 bump leg, targeted: the current version lies in the future of the bump date (same year, later unit; other
+    years; week-0 and New-Year days on either side).  A bump that succeeds must not move any calendar part backwards."""
+    name = "FUTURE/C14"
+
+    def total(self, tier):
+        return 6000 if tier == "quick" else 200000
+
+    def deadline(self, tier):
+        return 170 if tier == "quick" else 1500
+
+    def gen(self, seed, index, tier):
+        rng = runner.rng_for(seed, self.name, index)
+        core = COHERENT[index % len(COHERENT)]
+        shape = rng.choice(["MAJOR.%s", "%s.PATCH", "v%s.INC0", "%s.BUILD", "MAJOR.%s.INC1"])
+        pattern = shape % core
+        year = rng.randint(2001, 2097)
+        r = rng.random()
+        if r < 0.4:
+            new = dt.date(year, 1, rng.randint(1, 7))
+        elif r < 0.55:
+            new = dt.date(year, 12, rng.randint(25, 31))
+        else:
+            new = dt.date(year, rng.randint(1, 12), rng.randint(1, 28))
+        r = rng.random()
+        if r < 0.6:
+            old = new + dt.timedelta(days=rng.randint(1, 360))
+        elif r < 0.8:
+            old = new + dt.timedelta(days=rng.randint(1, 14))
+        else:
+            old = new + dt.timedelta(days=rng.randint(300, 800))
+        if old.year > 2098:
+            old = dt.date(2098, 12, 28)
+        flags = {}
+        if "MAJOR" in pattern:
+            flags["major"] = True
+        elif "PATCH" in pattern:
+            flags["patch"] = True
+        if rng.random() < 0.1:
+            flags["pin_increments"] = True if "INC" in pattern and ("major" in flags) else flags.get("pin_increments", False)
+        return {"pattern": pattern, "old": old.isoformat(), "new": new.isoformat(), "flags": {k: v for k, v in flags.items() if v},
+                "ops": [{"op": "future-bump"}]}
+
+    def run(self, case, ctx):
+        pattern = case["pattern"]
+        tree = rp.tokenize(pattern)
+        fields = rp.fields_of(tree)
+        old = dt.date.fromisoformat(case["old"])
+        new = dt.date.fromisoformat(case["new"])
+        st = rp.state_for_date(tree, old, {"major": 3, "patch": 4, "inc0": 2, "inc1": 5, "bid": "1041"})
+        st = {f: st.get(f) for f in fields}
+        text = rp.render(tree, st)
+        from gen import patterns as gpat
+        argv = ["test", text, pattern, "--date", new.isoformat()] + gpat.flags_to_argv(case["flags"])
+        d = invoker.new_dir("f")
+        res = invoker.invoke(d, argv, dt.date(1999, 1, 1))
+        ctx.invocations += 1
+        out = res.out_value("New Version: ") if res.exit_code == 0 else None
+        ctx.event(argv, res.exit_code, out)
+        ctx.sim_days += abs((old - new).days)
+        ctx.back_jumps += 1
+        week0 = rp.cal_fields(new)["week_w"] == 0 or rp.cal_fields(new)["week_u"] == 0
+        if week0:
+            ctx.probe("bump_date_in_week0")
+        facts = {"pattern": pattern, "week53": week53(tree, st), "bump_date_week0": week0}
+        ctx.sample = {"campaign": self.name, "argv": argv, "exit": res.exit_code, "out": out}
+        ctx.state((pattern.replace(COHERENT[0], ""), week0))
+        if facts["week53"]:
+            ctx.count("steered_week53")
+            return
+        if out is None:
+            exp = tc.expectation(ctx, tree, st, text, case["flags"], new, False)
+            if exp[0] == "ok" and exp[2] and rp.accepts(tree, exp[2]) and pep440.cmp(exp[2], text) > 0:
+                # the documented future guard keeps the calendar: the bump is legal, refusing it is C05's subject
+                ctx.violation("C05", "must_succeed_but_failed", dict(facts, expected=exp[2]),
+                              "rules give %r for %s but bumpver failed: %s" % (exp[2], argv, [m for _l, _n, m in res.logs][-2:]))
+            return
+        ctx.nontriv((pattern, case["old"], case["new"]))
+        got = rp.recognise(tree, out)
+        if not got:
+            ctx.violation("C01", "announced_not_accepted", facts, "announced %r not accepted by %r" % (out, pattern))
+            return
+        if rb.cal_tuple(got[0], fields) < rb.cal_tuple(st, fields):
+            ctx.violation("C14", "calendar_backwards", facts,
+                          "bump on %s moved the calendar parts of %r backwards: %r (pattern %r)" % (new, text, out, pattern))
+        ctx.probe("future_version_bumped")
+
+
+LEGACY_CAL = ["{pycalver}", "{year}.{doy}{build}{release}", "{year}.{month}.{dom}{build}", "{yy}.{month_short}.{dom}.{MINOR}",
+              "v{year}q{quarter}.{BID}", "{year}{month}{build}{release}"]
+
+
+class LegacySweep:
+    """C20: every date 2000..2099 for the legacy calendar composites through `bumpver test`."""
+    name = "LEGACYSWEEP/C20"
+
+    def units(self, tier, seed):
+        out = []
+        for pi, _p in enumerate(LEGACY_CAL):
+            if tier == "thorough":
+                for year in range(2000, 2100):
+                    out.append((pi, dt.date(year, 1, 1), dt.date(year, 12, 31)))
+            else:
+                for year in (2000, 2004, 2096, 2099):
+                    out.append((pi, dt.date(year, 1, 1), dt.date(year, 12, 31)))
+                rng = runner.rng_for(seed, self.name, pi)
+                for _ in range(2):
+                    y = rng.randint(2001, 2098)
+                    out.append((pi, dt.date(y, 1, 1), dt.date(y, 12, 31)))
+                for year in range(2001, 2099, 7):
+                    out.append((pi, dt.date(year, 12, 25), dt.date(year + 1, 1, 7)))
+        return out
+
+    def total(self, tier):
+        return len(self.units(tier, 0))
+
+    def deadline(self, tier):
+        return 170 if tier == "quick" else 1700
+
+    def gen(self, seed, index, tier):
+        pi, a, b = self.units(tier, seed)[index]
+        return {"pattern": LEGACY_CAL[pi], "first": a.isoformat(), "last": b.isoformat(), "ops": [{"op": "sweep"}]}
+
+    def run(self, case, ctx):
+        from ref import legacy as rl
+        pattern = case["pattern"]
+        tree = rl.tokenize(pattern)
+        fields = rp.fields_of(tree)
+        a = dt.date.fromisoformat(case["first"])
+        b = dt.date.fromisoformat(case["last"])
+        base = rp.state_for_date(tree, dt.date(1999, 12, 30) if "L.yy" not in rp.parts_of(tree) else dt.date(2000, 1, 1),
+                                 {"bid": "1001", "tag": "final", "minor": 3, "major": 1, "patch": 0})
+        base = {f: base.get(f) for f in fields}
+        if "tag" in base and base["tag"] is None:
+            base["tag"] = "final"
+        v0 = rp.render(tree, base)
+        d = invoker.new_dir("l")
+        day = a
+        ctx.sample = {"campaign": self.name, "pattern": pattern, "v0": v0, "first": case["first"], "last": case["last"]}
+        bad = 0
+        while day <= b and bad < 4:
+            res = invoker.invoke(d, ["test", v0, pattern, "--date", day.isoformat(), "--minor"] if "minor" in fields else
+                                 ["test", v0, pattern, "--date", day.isoformat()], dt.date(1999, 1, 1))
+            ctx.invocations += 1
+            ctx.sim_days += 1
+            out = res.out_value("New Version: ") if res.exit_code == 0 else None
+            ctx.event(day.isoformat(), res.exit_code, out)
+            facts = {"pattern": pattern, "day": day.isoformat(), "legacy": True}
+            want_cal = rp.cal_fields(day)
+            if out is None:
+                if day > dt.date(2000, 1, 1):
+                    ctx.violation("C20", "legacy_date_not_bumpable", facts, "`test %s %s --date %s` exit %s (%s)" % (
+                        v0, pattern, day, res.exit_code, res.exc or [m for _l, _n, m in res.logs][-2:]))
+                    bad += 1
+            else:
+                st = rp.recognise(tree, out)
+                if not st:
+                    ctx.violation("C20", "announced_not_accepted", facts, "announced %r is not accepted by %r (%s)" % (out, pattern, day))
+                    bad += 1
+                else:
+                    for f in fields:
+                        if f in want_cal and st[0].get(f) != want_cal[f]:
+                            ctx.violation("C20", "legacy_calendar_part_wrong", dict(facts, field=f),
+                                          "%s: %r shows %s=%r, the date has %r" % (day, out, f, st[0].get(f), want_cal[f]))
+                            bad += 1
+                            break
+                    try:
+                        back = adapter.parse(out, pattern)
+                        if adapter.fmt(back, pattern) != out:
+                            ctx.violation("C20", "rerender_differs", facts, "%r re-renders as %r" % (out, adapter.fmt(back, pattern)))
+                            bad += 1
+                    except Exception as ex:
+                        if isinstance(ex, invoker.HarnessError):
+                            raise
+                        ctx.violation("C20", "render_not_recognised", dict(facts, exc=type(ex).__name__),
+                                      "%r (for %s) cannot be read back with %r: %s" % (out, day, pattern, ex))
+                        bad += 1
+                    if pep440.cmp(out, v0) <= 0:
+                        ctx.violation("C20", "not_strictly_greater", facts, "%r is not greater than %r" % (out, v0))
+                        bad += 1
+            if want_cal["doy"] == 366:
+                ctx.probe("legacy_day366_hit")
+            day += dt.timedelta(days=1)
+        ctx.nontriv((pattern, case["first"]))
+        ctx.state((pattern,))
